@@ -411,9 +411,24 @@ class DownloadNode:
 
     def process_blocks(self, segnum, blocks):
         start = now()
+        # we are called by the active SegmentFetcher. Decoding finishes on a
+        # later turn (it runs in a thread); by then _cancel_request() or
+        # stop() may have abandoned this fetch and made a different
+        # SegmentFetcher the active one. Remember whose blocks these are, so
+        # that a late result is dropped instead of being taken for the
+        # completion of whatever fetch is active by then.
+        fetcher = self._active_segment
         d = self._decode_blocks(segnum, blocks)
         d.addCallback(self._check_ciphertext_hash, segnum)
         def _deliver(result):
+            if self._active_segment is not fetcher:
+                # nobody wants this segment any more, and the next fetch (if
+                # any) has already been started: leave it alone
+                log.msg(format="discarding segment(%(segnum)d):"
+                        " abandoned while it was being decoded",
+                        segnum=segnum,
+                        level=log.NOISY, parent=self._lp, umid="5Zp1xQ")
+                return
             log.msg(format="delivering segment(%(segnum)d)",
                     segnum=segnum,
                     level=log.OPERATIONAL, parent=self._lp,
@@ -484,7 +499,6 @@ class DownloadNode:
     def _check_ciphertext_hash(self, segment_and_decodetime, segnum):
         (segment, decodetime) = segment_and_decodetime
         start = now()
-        assert self._active_segment.segnum == segnum
         assert self.segment_size is not None
         offset = segnum * self.segment_size
 
